@@ -347,14 +347,32 @@ impl Scenario for Zero {
                         3 => u64::MAX,
                         _ => cx().a(size as u32) as u64,
                     };
-                    desc = format!("region[{}].{} at {}", size, ENTRIES[entry], addr);
-                    valid = addr < size as u64;
+                    // now and then the region itself is empty (a zero-sized region around an external pointer)
+                    #[cfg(not(feature = "xen"))]
+                    let empty_region = if cx().a(6) == 0 {
+                        // SAFETY: a zero-sized region touches nothing; the pointer is a live, page-aligned mapping of ours.
+                        in_mode(Mode::Setup, || unsafe { vm_memory::MmapRegion::<()>::build_raw(w.ptrs[0], 0, libc::PROT_READ | libc::PROT_WRITE, libc::MAP_PRIVATE | libc::MAP_ANONYMOUS) }.ok().and_then(|m| vm_memory::GuestRegionMmap::new(m, GuestAddress(0x9000)).ok()))
+                    } else {
+                        None
+                    };
+                    #[cfg(feature = "xen")]
+                    let empty_region: Option<vm_memory::GuestRegionMmap<()>> = None;
                     entry_is_stream = entry >= 8;
                     copy_form = false;
-                    let r = w.gm.find_region(GuestAddress(w.regs[0].base)).unwrap();
-                    ev_from = cx().events.len();
-                    cx().op_begin(step as u64);
-                    res = catch(|| bytes_zero(r, MemoryRegionAddress(addr), entry));
+                    if let Some(er) = empty_region.as_ref() {
+                        desc = format!("empty region[0].{} at {}", ENTRIES[entry], addr);
+                        valid = false;
+                        ev_from = cx().events.len();
+                        cx().op_begin(step as u64);
+                        res = catch(|| bytes_zero(er, MemoryRegionAddress(addr), entry));
+                    } else {
+                        desc = format!("region[{}].{} at {}", size, ENTRIES[entry], addr);
+                        valid = addr < size as u64;
+                        let r = w.gm.find_region(GuestAddress(w.regs[0].base)).unwrap();
+                        ev_from = cx().events.len();
+                        cx().op_begin(step as u64);
+                        res = catch(|| bytes_zero(r, MemoryRegionAddress(addr), entry));
+                    }
                 }
                 Layer::Gm => {
                     let w = gw.as_ref().unwrap();
